@@ -759,32 +759,68 @@ Definition emph_ok_nocolor (st pos : Z) : bool :=
 Lemma emph_nocolor_all : forallb (fun st => forallb (emph_ok_nocolor st) [0; 1; 2]) [0; 1; 2; 3; 4; 5; 6] = true.
 Proof. vm_compute. reflexivity. Qed.
 
+Definition style_tokens (st : Z) : list text :=
+  match enum_value enum_TextEmphasisStyle st with Some s => split_on 32 s [] | None => [] end.
+Definition style_of (ss sy : option text) : option Z :=
+  match ss, sy with
+  | None, None => enum_by_name enum_TextEmphasisStyle T_auto
+  | _, _ => enum_by_value enum_TextEmphasisStyle
+              ((match ss with Some x => x | None => [102;105;108;108;101;100] end) ++ sp ++ (match sy with Some x => x | None => [99;105;114;99;108;101] end))
+  end.
+
+Lemma split_style st rest : 0 <= st <= 6 ->
+  exists s, enum_value enum_TextEmphasisStyle st = Some s /\ split_on 32 (s ++ 32 :: rest) [] = style_tokens st ++ split_on 32 rest [].
+Proof.
+  intro H. assert (Hs : st = 0 \/ st = 1 \/ st = 2 \/ st = 3 \/ st = 4 \/ st = 5 \/ st = 6) by lia.
+  destruct Hs as [-> | [-> | [-> | [-> | [-> | [-> | ->]]]]]]; eexists; split; reflexivity.
+Qed.
+
+Lemma fold_style st rest : 0 <= st <= 6 ->
+  exists ss sy, emph_fold (style_tokens st ++ rest) None None None None = emph_fold rest ss sy None None /\ style_of ss sy = Some st.
+Proof.
+  intro H. assert (Hs : st = 0 \/ st = 1 \/ st = 2 \/ st = 3 \/ st = 4 \/ st = 5 \/ st = 6) by lia.
+  destruct Hs as [-> | [-> | [-> | [-> | [-> | [-> | ->]]]]]]; eexists _, _; split; reflexivity.
+Qed.
+
+Lemma split_pos pos : 0 <= pos <= 2 ->
+  exists s, enum_value enum_TextEmphasisPosition pos = Some s /\ split_on 32 s [] = [s] /\
+    forall ss sy c0 p0, emph_fold [s] ss sy c0 p0 = EmSt ss sy c0 (Some pos).
+Proof.
+  intro H. assert (Hp : pos = 0 \/ pos = 1 \/ pos = 2) by lia.
+  destruct Hp as [-> | [-> | ->]]; (eexists; split; [reflexivity|split; [reflexivity|intros; reflexivity]]).
+Qed.
+
 Theorem text_emphasis_roundtrip st pos c : 0 <= st <= 6 -> 0 <= pos <= 2 -> obyte c ->
   exists s, print_style P_TextEmphasis (SEmph st c pos) = WAttr s /\ read_style P_TextEmphasis s = Some (SEmph st c pos).
 Proof.
   intros Hst Hpos Hc.
-  assert (Hs : st = 0 \/ st = 1 \/ st = 2 \/ st = 3 \/ st = 4 \/ st = 5 \/ st = 6) by lia.
-  assert (Hp : pos = 0 \/ pos = 1 \/ pos = 2) by lia.
   destruct c as [[[[r g] b] a]|].
   - destruct Hc as [Hr [Hg [Hb Ha]]].
     pose proof (print_color_plain r g b a Hr Hg Hb Ha) as Pc.
     pose proof (color_roundtrip r g b a Hr Hg Hb Ha) as Cr.
-    pose (pc := print_color (r, g, b, a)).
-    assert (K1 : text_eqb pc T_none = false) by reflexivity.
-    assert (K2 : text_eqb pc T_auto = false) by reflexivity.
-    assert (K3 : mem_tok pc emph_styles = false) by reflexivity.
-    assert (K4 : mem_tok pc emph_symbols = false) by reflexivity.
-    assert (K5 : enum_by_name enum_TextEmphasisPosition pc = None) by reflexivity.
-    assert (K6 : text_eqb pc [99; 117; 114; 114; 101; 110; 116] = false) by reflexivity.
-    unfold pc in *. clear pc.
-    destruct Hs as [-> | [-> | [-> | [-> | [-> | [-> | ->]]]]]]; destruct Hp as [-> | [-> | ->]];
-      (eexists; split; [reflexivity|];
-       unfold read_style, extract_style; unfold_props;
-       cbn [enum_value enum_TextEmphasisStyle enum_TextEmphasisPosition Z.eqb Pos.eqb print_ocolor join_with app];
-       unfold sp; cbn [app split_on Z.eqb Pos.eqb];
-       rewrite (split_plain_app _ _ Pc _); cbn [app split_on Z.eqb Pos.eqb emph_fold];
-       repeat (rewrite K1 || rewrite K2 || rewrite K3 || rewrite K4 || rewrite K5 || rewrite K6 || rewrite Cr || cbn [mem_tok existsb text_eqb emph_styles emph_symbols orb andb Z.eqb Pos.eqb T_none T_auto enum_by_name enum_TextEmphasisPosition]); reflexivity).
-  - assert (H : emph_ok_nocolor st pos = true).
+    destruct (split_pos pos Hpos) as [ps [Eps [Sps Fps]]].
+    destruct (split_style st (print_color (r, g, b, a) ++ 32 :: ps) Hst) as [sst [Est Sst]].
+    destruct (fold_style st [print_color (r, g, b, a); ps] Hst) as [ss [sy [Ff Fs]]].
+    exists (sst ++ sp ++ print_color (r, g, b, a) ++ sp ++ ps).
+    split; [cbn [print_style]; rewrite Est, Eps; reflexivity|].
+    unfold read_style, extract_style. unfold_props. unfold sp. cbn [app].
+    rewrite Sst, (split_plain_app _ _ Pc []), Sps. cbn [app].
+    match goal with |- context [emph_fold ?l ?a1 ?a2 ?a3 ?a4] =>
+      replace (emph_fold l a1 a2 a3 a4) with (emph_fold [print_color (r, g, b, a); ps] ss sy None None) by (symmetry; exact Ff) end.
+    assert (Hpc : emph_fold [print_color (r, g, b, a); ps] ss sy None None = emph_fold [ps] ss sy (Some (r, g, b, a)) None).
+    { cbn [emph_fold].
+      replace (text_eqb (print_color (r, g, b, a)) T_none) with false by reflexivity.
+      replace (text_eqb (print_color (r, g, b, a)) T_auto) with false by reflexivity.
+      replace (mem_tok (print_color (r, g, b, a)) emph_styles) with false by reflexivity.
+      replace (mem_tok (print_color (r, g, b, a)) emph_symbols) with false by reflexivity.
+      replace (enum_by_name enum_TextEmphasisPosition (print_color (r, g, b, a))) with (@None Z) by reflexivity.
+      replace (text_eqb (print_color (r, g, b, a)) [99; 117; 114; 114; 101; 110; 116]) with false by reflexivity.
+      rewrite Cr. reflexivity. }
+    rewrite Hpc, Fps. unfold style_of in Fs.
+    destruct ss, sy; cbn [sp app] in Fs |- *; rewrite Fs; reflexivity.
+  - assert (Hs : st = 0 \/ st = 1 \/ st = 2 \/ st = 3 \/ st = 4 \/ st = 5 \/ st = 6) by lia.
+    assert (Hp : pos = 0 \/ pos = 1 \/ pos = 2) by lia.
+    assert (H : emph_ok_nocolor st pos = true).
     { destruct Hs as [-> | [-> | [-> | [-> | [-> | [-> | ->]]]]]]; destruct Hp as [-> | [-> | ->]]; vm_compute; reflexivity. }
     unfold emph_ok_nocolor in H.
     destruct (print_style P_TextEmphasis (SEmph st None pos)) as [s| |]; try discriminate.
